@@ -17,7 +17,9 @@ def replay(c):
         if kind == 'odd':
             return f(-c['d']) != -f(c['d']), f"f({c['d']}) = {f(c['d'])}, f({-c['d']}) = {f(-c['d'])}"
         if kind == 'monotone':
-            return f(c['a']) > f(c['b']), f"a={c['a']} <= b={c['b']} but f(a)={f(c['a'])} > f(b)={f(c['b'])}"
+            fa = f(c['a'])
+            fb = f(c['b'])        # second conversion in the same process
+            return (fa > fb or fb != ref(c['b'])), f"a={c['a']} <= b={c['b']}: f(a)={fa}, then f(b)={fb} (official scale {ref(c['b'])})"
         if kind == 'two':
             got = score_to_imp(c['a'], c['b'])
             return got != ref(c['a'] + c['b']), f"score_to_imp({c['a']}, {c['b']}) = {got}, scale {ref(c['a'] + c['b'])}"
